@@ -75,7 +75,9 @@ type fn struct {
 	call func(s *slip.Scope, args slip.List, depth int) slip.Object
 }
 
-func (f *fn) Call(s *slip.Scope, args slip.List, depth int) slip.Object { return f.call(s, args, depth) }
+func (f *fn) Call(s *slip.Scope, args slip.List, depth int) slip.Object {
+	return f.call(s, args, depth)
+}
 
 func define(name string, min, max int, call func(args slip.List) slip.Object) {
 	ev.VT.Define(func(args slip.List) slip.Object {
@@ -212,6 +214,28 @@ func program(c Case) (setup, main string) {
 			}
 			fmt.Fprintf(&sb, " (dotimes (i %d) (channel-pop *done*)) (list (or (gethash 0 *tab*) 0) (or (gethash 1 *tab*) 0)))", c.N)
 		}
+	case "generic":
+		// one routine redefines the only method of a generic K times (each version returns its number) and checks
+		// that the very next call sees the new version; the others call the generic all the time
+		k := c.M
+		if k > 40 {
+			k = 40
+		}
+		setup = fmt.Sprintf(`
+(defvar *done* nil)
+(defgeneric c17-ver (x y z))
+(defmethod c17-ver ((x fixnum) (y fixnum) (z fixnum)) 0)
+(defun ver-caller (id) (vt:begin) (dotimes (i %d) (vt:sink id (c17-ver 1 2 3))) (vt:end) (channel-push *done* id))
+`, c.M*3)
+		fmt.Fprintf(&sb, "(progn (setq *done* (make-channel %d))", c.N+2)
+		for i := 1; i < c.N; i++ {
+			fmt.Fprintf(&sb, " (run (ver-caller %d))", i)
+		}
+		sb.WriteString(" (run (progn (vt:begin)")
+		for v := 1; v <= k; v++ {
+			fmt.Fprintf(&sb, " (defmethod c17-ver ((x fixnum) (y fixnum) (z fixnum)) %d) (vt:sink 0 (c17-ver 1 2 3))", v)
+		}
+		fmt.Fprintf(&sb, " (vt:end) (channel-push *done* 0))) (dotimes (i %d) (channel-pop *done*)) (c17-ver 1 2 3))", c.N)
 	case "tables":
 		// routines define distinct variables, functions and methods, call a shared function and a shared generic, and print
 		setup = fmt.Sprintf(`
@@ -226,11 +250,16 @@ func program(c Case) (setup, main string) {
     (vt:sink id (shared-gf i))
     (vt:sink id (shared-gf "s"))
     (vt:sink id (write-to-string (list id i (list "a" 'b 1.5 (list i i i) "cccccccccc") (list id id)) :pretty t :right-margin (+ 10 (mod (+ id i) 30)))))
-  (vt:end) (channel-push *done* id))
+  (vt:end))
 `, c.M)
+		// every routine also (re)defines, three times, a method of the shared generic on a class of its own
+		// while the others call the generic: the dispatch cache is filled and cleared concurrently
+		classes := []string{"symbol", "character", "double-float", "ratio", "list", "vector", "bignum", "single-float"}
 		fmt.Fprintf(&sb, "(progn (setq *done* (make-channel %d))", c.N+2)
 		for i := 0; i < c.N; i++ {
-			fmt.Fprintf(&sb, " (run (progn (defvar *c17-v%d* %d) (defun c17-f%d (x) (+ x %d)) (definer %d)))", i, i*7, i, i, i)
+			cl := classes[i%len(classes)]
+			fmt.Fprintf(&sb, " (run (progn (defvar *c17-v%d* %d) (defun c17-f%d (x) (+ x %d)) (dotimes (k 3) (defmethod shared-gf ((x %s)) (list '%s x)) (definer %d)) (channel-push *done* %d)))",
+				i, i*7, i, i, cl, cl, i, i)
 		}
 		fmt.Fprintf(&sb, " (dotimes (i %d) (channel-pop *done*)) (list", c.N)
 		for i := 0; i < c.N; i++ {
@@ -385,6 +414,27 @@ func judge(c Case, scope *slip.Scope, val slip.Object) string {
 				return fmt.Sprintf("counters are %s, expected %s (lost update)", g, w)
 			}
 		}
+	case "generic":
+		k := c.M
+		if k > 40 {
+			k = 40
+		}
+		if w, g := fmt.Sprint(k), sx.Text(val); w != g {
+			return fmt.Sprintf("after the last defmethod the generic returns %s, expected %s", g, w)
+		}
+		for id, items := range sinks {
+			prev := int64(0)
+			for i, it := range items {
+				v, ok := it.(slip.Fixnum)
+				if !ok || int64(v) < prev || int64(v) > int64(k) {
+					return fmt.Sprintf("routine %d saw version %s after version %d (a call ran a method older than one it had already seen)", id, sx.Text(it), prev)
+				}
+				if id == 0 && int64(v) != int64(i+1) {
+					return fmt.Sprintf("the call right after (defmethod ... %d) returned ran version %s", i+1, sx.Text(it))
+				}
+				prev = int64(v)
+			}
+		}
 	case "tables":
 		var want []string
 		for i := 0; i < c.N; i++ {
@@ -394,10 +444,17 @@ func judge(c Case, scope *slip.Scope, val slip.Object) string {
 			return fmt.Sprintf("definitions made by the routines read back as %s, expected %s", g, w)
 		}
 		for id, items := range sinks {
-			if len(items) != 4*c.M {
-				return fmt.Sprintf("routine %d recorded %d results, expected %d", id, len(items), 4*c.M)
+			if len(items) != 12*c.M {
+				return fmt.Sprintf("routine %d recorded %d results, expected %d", id, len(items), 12*c.M)
 			}
-			for i := 0; i < c.M; i++ {
+			for i := 0; i < c.M; i++ { // the three rounds give the same results; the first is compared in detail
+				for round := 1; round < 3; round++ {
+					for k := 0; k < 4; k++ {
+						if sx.Text(items[4*i+k]) != sx.Text(items[round*4*c.M+4*i+k]) {
+							return fmt.Sprintf("routine %d: result %d of iteration %d differs between rounds: %s vs %s", id, k, i, sx.Text(items[4*i+k]), sx.Text(items[round*4*c.M+4*i+k]))
+						}
+					}
+				}
 				if w, g := fmt.Sprint(i*2+1), sx.Text(items[4*i]); w != g {
 					return fmt.Sprintf("routine %d: (shared-fn %d) => %s", id, i, g)
 				}
@@ -581,7 +638,7 @@ func run(c Case) *h.Result {
 
 func gen(rt *rapid.T) Case {
 	c := Case{
-		Template: rapid.SampledFrom([]string{"channels", "mutex", "sync-instance", "tables"}).Draw(rt, "template"),
+		Template: rapid.SampledFrom([]string{"channels", "mutex", "sync-instance", "tables", "generic", "generic"}).Draw(rt, "template"),
 		N:        rapid.IntRange(2, 8).Draw(rt, "routines"),
 		M:        rapid.SampledFrom([]int{5, 20, 50, 100, 200}).Draw(rt, "ops"),
 		Cap:      rapid.IntRange(0, 8).Draw(rt, "cap"),
@@ -589,8 +646,8 @@ func gen(rt *rapid.T) Case {
 		Variant:  rapid.IntRange(0, 5).Draw(rt, "variant"),
 		Warm:     rapid.Bool().Draw(rt, "warm"),
 	}
-	if c.Template == "tables" && c.M > 50 {
-		c.M = 50
+	if c.Template == "tables" && c.M > 20 {
+		c.M = 20
 	}
 	return c
 }
